@@ -342,6 +342,25 @@ def check_C04(run: Run):
         if p_ == sorted(p_): p_ = p_[1:] + p_[:1]
         r0 = O.impl_map(p_, c)
         if r0["err"] is None: cases.append({"c": r0["c"], "via": "map"})
+    # a statement object occurring several times (what a replace callback returning [h, cz, h] produces), mapped, then written:
+    # the text must name the qubits the statements act on
+    for _ in range(run.n(25, 300)):
+        n = rng.randint(2, 4); p_ = list(range(n)); rng.shuffle(p_)
+        c0 = g.circuit(n=n, kinds="named", allow_band=False, length=rng.randint(2, 6))
+        c0["stmts"] = [s_ for s_ in c0["stmts"] if not (s_["k"] == "measure" and s_["nm"]["name"] == "measure_z")] or [g.named1(0)]
+        circ = W.os_circuit(c0)
+        objs = list(circ.ir.statements)
+        circ.ir.statements[:] = objs + [rng.choice(objs) for _ in range(rng.randint(1, 3))]
+        r0 = O.impl_map(p_, None, circ=circ)
+        run.count({"shared-then-write": c0, "p": p_}, tag="shared-object")
+        if r0["err"] is not None: run.violation(f"map of a circuit with a repeated statement object raised {r0['err']}", {"c": c0, "p": p_}); continue
+        txt = O.impl_write(None, circ=circ)
+        back = O.impl_parse(txt["v"]) if txt["err"] is None else {"err": txt["err"], "v": None}
+        if back["err"] is not None: run.violation(f"a mapped circuit with a repeated statement object cannot be written and read back ({back['err']})", {"c": c0, "p": p_}); continue
+        sem = [R.stmt_qubits(s_) for s_ in r0["c"]["stmts"] if s_["k"] != "comment"]
+        got = [R.stmt_qubits(s_) for s_ in back["v"]["stmts"] if s_["k"] != "comment"]
+        if sem != got:
+            run.violation("the written text names other qubits than the statements act on (repeated statement object, after map)", {"c": c0, "p": p_, "text": txt["v"]})
     def cmp_w(c, r, m):
         if m is None: return None
         if r["err"] != m["err"]: return f"write {r['err']} vs model {m['err']}"
@@ -549,10 +568,10 @@ def sched_circuit(g: G.Gen):
         m = rng.randrange(12); q = rng.randrange(n)
         if m <= 2:
             phi = rng.choice([0, math.pi / 2, math.pi, -math.pi / 2, rng.uniform(-math.pi, math.pi)])
-            ax = (math.cos(phi), math.sin(phi), rng.choice([0.0, 0.0, 1e-9, -1e-8]))
+            ax = (math.cos(phi), math.sin(phi), rng.choice([0.0, 0.0, 1e-9, -1e-8, 1e-5, -2e-4]))      # the last two: tilted out of the plane, not expressible
             st.append(W.w_stmt(BlochSphereRotation(q, ax, g.angle(False), g.phase())))
         elif m <= 4:
-            z = rng.choice([1.0, -1.0]); e = rng.choice([0.0, 0.0, 1e-9])
+            z = rng.choice([1.0, -1.0]); e = rng.choice([0.0, 0.0, 1e-9, 3e-6, 1e-4, 4e-4])               # tilted away from z by more than the tolerance: not an Rz
             st.append(W.w_stmt(BlochSphereRotation(q, (e, -e, z), g.angle(False), g.phase())))
         elif m == 5: st.append(g.named1(q) if False else W.w_stmt(getattr(dg, rng.choice(["X", "Y", "Z", "X90", "mX90", "Y90", "mY90", "S", "Sdag", "T", "Tdag", "I"]))(q)))
         elif m == 6 and n >= 2:
@@ -726,6 +745,8 @@ def user_gate_family():
             "ccz": (ccz, ["q", "q", "q"]), "iswapk": (iswapk, ["q", "i", "q", "f", "f"])}
 
 def check_C20(run: Run):
+    from shared import redefinition_check
+    redefinition_check(run, False)
     rng = random.Random(run.seed * 37 + 41); g = G.Gen(rng)
     from opensquirrel import CircuitBuilder
     from opensquirrel.default_gates import default_gate_set
